@@ -4,8 +4,9 @@ import CssVerif.Lib.Proto
 
 Hand transcription of
 * `CSSStyleSheet._getEncoding` / `_setEncoding` (`cssstylesheet.py:427-451`),
-* `CSSStyleSheet.insertRule` (`cssstylesheet.py:552-884`) for rule objects of every kind except `@namespace`
-  (whose de-duplication through the namespace map belongs to C09/C15 and never touches index 0),
+* `CSSStyleSheet.insertRule` (`cssstylesheet.py:552-940`) for rule objects of every kind; an `@namespace` rule always
+  with a prefix and a URI that no other rule of the sheet has (then it is no "doublette", `_cleanNamespaces` removes
+  nothing and no prefix is in use: the de-duplication through the namespace map belongs to C09/C15),
 * `CSSStyleSheet.deleteRule` (`cssstylesheet.py:496-550`) for an integer index,
 * `CSSCharsetRule._setEncoding` (`csscharsetrule.py:131-164`),
 * the `expected` gate of the callbacks in `_setCssText` (`cssstylesheet.py:171-313`) for `sheet.cssText = …`,
@@ -24,6 +25,7 @@ inductive Rule where
   | unknown
   | imp
   | variables
+  | ns                      -- CSSNamespaceRule with a fresh prefix and a fresh URI
   | style                   -- CSSStyleRule, CSSMediaRule, CSSPageRule, CSSFontFaceRule ("all other")
 deriving DecidableEq, Repr, Inhabited
 
@@ -114,29 +116,44 @@ def insertRule (rules : List Rule) (rule : Rule) (index : Option Nat) (inOrder :
             | _ => 0
           .ok ⟨insertAt rules k .imp, k⟩
       else if idx = 0 && head0Charset then .error .hierarchyRequestErr
-      else if (rules.take idx).any (fun r => r == .variables || r == .style) then .error .hierarchyRequestErr
+      else if (rules.take idx).any (fun r => r == .ns || r == .variables || r == .style) then .error .hierarchyRequestErr
       else .ok ⟨insertAt rules idx .imp, idx⟩
+    | .ns =>                                                         -- :766-845
+      if inOrder then
+        match afterLast (· == .ns) rules with
+        | some k => .ok ⟨insertAt rules k .ns, k⟩
+        | none =>
+          -- after the last @charset / @import, before the first rule of another kind (a given index is ignored)
+          let start := (afterLast (fun r => r.isCharset || r == .imp) rules).getD 0
+          let k := match firstIdx (fun r => r == .variables || r == .style || r == .unknown || r == .comment)
+              (rules.drop start) with
+            | some j => start + j
+            | none => rules.length
+          .ok ⟨insertAt rules k .ns, k⟩
+      else if (rules.drop idx).any (fun r => r.isCharset || r == .imp) then .error .hierarchyRequestErr
+      else if (rules.take idx).any (fun r => r == .variables || r == .style) then .error .hierarchyRequestErr
+      else .ok ⟨insertAt rules idx .ns, idx⟩                         -- fresh prefix: no doublette, nothing to clean
     | .variables =>                                                  -- :803-852
       if inOrder then
         match afterLast (· == .variables) rules with
         | some k => .ok ⟨insertAt rules k .variables, k⟩
         | none =>
           -- a given index is ignored (fix e727728); the scan starts after the last @charset / @import (fix 23bf738)
-          let start := (afterLast (fun r => r.isCharset || r == .imp) rules).getD 0
+          let start := (afterLast (fun r => r.isCharset || r == .imp || r == .ns) rules).getD 0
           let k := match firstIdx (fun r => r == .style || r == .unknown || r == .comment) (rules.drop start) with
             | some j => start + j
             | none => rules.length
           .ok ⟨insertAt rules k .variables, k⟩
-      else if (rules.drop idx).any (fun r => r.isCharset || r == .imp) then .error .hierarchyRequestErr
+      else if (rules.drop idx).any (fun r => r.isCharset || r == .imp || r == .ns) then .error .hierarchyRequestErr
       else if (rules.take idx).any (fun r => r == .style) then .error .hierarchyRequestErr
       else .ok ⟨insertAt rules idx .variables, idx⟩
     | .style =>                                                      -- :855-875
       if inOrder then .ok ⟨rules ++ [.style], rules.length⟩
-      else if (rules.drop idx).any (fun r => r.isCharset || r == .imp || r == .variables) then
+      else if (rules.drop idx).any (fun r => r.isCharset || r == .imp || r == .ns || r == .variables) then
         .error .hierarchyRequestErr
       else .ok ⟨insertAt rules idx .style, idx⟩
 
-/-- `deleteRule(index)` for `0 ≤ index` (`cssstylesheet.py:530-550`; no `@namespace` rules in this model) -/
+/-- `deleteRule(index)` for `0 ≤ index` (`cssstylesheet.py:530-550`; the `@namespace` rules of this model are not in use) -/
 def deleteRule (rules : List Rule) (i : Nat) : Except DomErr (List Rule) :=
   if i < rules.length then .ok (rules.eraseIdx i) else .error .indexSizeErr
 
@@ -180,15 +197,43 @@ def parseAll : List Rule → Nat → List Rule → Except DomErr (List Rule)
     | .unknown => parseAll t (max 1 exp) (acc ++ [.unknown])
     | .imp => if exp > 1 then .error .hierarchyRequestErr else parseAll t 1 (acc ++ [.imp])
     | .variables => if exp > 2 then .error .hierarchyRequestErr else parseAll t 2 (acc ++ [.variables])
+    | .ns =>                                           -- :220-245: `insertRule(rule, _clean=False)`, index `None`
+      if exp > 2 then .error .hierarchyRequestErr
+      else if acc.any (fun r => r == .variables || r == .style) then .error .hierarchyRequestErr
+      else parseAll t 2 (acc ++ [.ns])
     | .style => parseAll t 3 (acc ++ [.style])
 
 /-- `sheet.cssText = …`: when a rule is reported the exception leaves through `finally`, which puts the old
 content back (`cssstylesheet.py:352-357`) -/
 def setCssText (src : List Rule) : Except DomErr (List Rule) := parseAll src 0 []
 
+/-- `insertRule(text, index, inOrder)` with the rule given as a string (`cssstylesheet.py:600-645`): the index is
+checked first; the text — with the sheet's own `@charset` rule in front unless the text itself starts with `@charset` —
+is parsed into a temporary sheet (a rule that is not allowed there raises, the sheet is untouched); it must give exactly
+one new rule (`'Not a CSSRule'` otherwise), which then goes the way of a rule object. `src` = the rules of the text. -/
+def startsCharset : List Rule → Bool
+  | .charset _ :: _ => true
+  | _ => false
+
+/-- `pre` = the sheet's `@charset` rule is put in front of the text (`newrulescount, newruleindex = 2, 1`) -/
+def insertRuleTextCore (pre : Bool) (rules src : List Rule) (idx : Nat) (inOrder : Bool) : Except DomErr InsRes :=
+  match setCssText (if pre then rules.take 1 ++ src else src) with
+  | .error e => .error e
+  | .ok rs =>
+    if rs.length ≠ (if pre then 2 else 1) then .error .syntaxErr
+    else match rs[if pre then 1 else 0]? with
+      | some r => insertRule rules r (some idx) inOrder
+      | none => .error .syntaxErr
+
+def insertRuleText (rules src : List Rule) (index : Option Nat) (inOrder : Bool) : Except DomErr InsRes :=
+  let idx := index.getD rules.length
+  if idx > rules.length then .error .indexSizeErr
+  else insertRuleTextCore (!startsCharset src && headIsCharset rules) rules src idx inOrder
+
 inductive Op where
   | setEncoding (e : Option Name)
   | insert (r : Rule) (index : Option Nat) (inOrder : Bool)
+  | insertText (src : List Rule) (index : Option Nat) (inOrder : Bool)
   | insertCharsetNamed (name : Name) (index : Option Nat) (inOrder : Bool)   -- `CSSCharsetRule(encoding=name)` built first
   | delete (i : Nat)
   | setRuleEncoding (i : Nat) (e : Name)
@@ -199,6 +244,9 @@ deriving DecidableEq, Repr, Inhabited
 def applyOp (valid : Name → Bool) (rules : List Rule) : Op → Except DomErr (List Rule)
   | .setEncoding e => setEncoding valid rules e
   | .insert r i o => match insertRule rules r i o with
+    | .ok x => .ok x.rules
+    | .error e => .error e
+  | .insertText src i o => match insertRuleText rules src i o with
     | .ok x => .ok x.rules
     | .error e => .error e
   | .insertCharsetNamed n i o =>
@@ -228,13 +276,13 @@ open CssVerif.Proto
 
 def showRule : Rule → String
   | .charset e => "charset:" ++ encCps e | .comment => "comment" | .unknown => "unknown"
-  | .imp => "import" | .variables => "variables" | .style => "style"
+  | .imp => "import" | .variables => "variables" | .ns => "namespace" | .style => "style"
 
 def rule? (s : String) : Option Rule :=
   match s.splitOn ":" with
   | ["charset", e] => (decCps e).map Rule.charset
   | ["comment"] => some .comment | ["unknown"] => some .unknown | ["import"] => some .imp
-  | ["variables"] => some .variables | ["style"] => some .style
+  | ["variables"] => some .variables | ["namespace"] => some .ns | ["style"] => some .style
   | _ => none
 
 def showErr : DomErr → String
@@ -247,13 +295,16 @@ def rules? (s : String) : Option (List Rule) :=
     | some r, some l => some (r :: l)
     | _, _ => none) (some [])
 
-/-- `enc/<name|N>`, `ins/<rule>/<idx|N>/<0|1>`, `insn/<name>/<idx|N>/<0|1>`, `del/<i>`, `renc/<i>/<name>`,
+/-- `enc/<name|N>`, `ins/<rule>/<idx|N>/<0|1>`, `inst/<rule,rule,…>/<idx|N>/<0|1>` (the rule given as text), `insn/<name>/<idx|N>/<0|1>`, `del/<i>`, `renc/<i>/<name>`,
 `text/<rule,rule,…>` (inside `text`, `charset=<name>`) -/
 def op? (s : String) : Option Op :=
   match s.splitOn "/" with
   | ["enc", e] => if e == "N" then some (.setEncoding none) else (decCps e).map (fun n => .setEncoding (some n))
   | ["ins", r, i, o] => match rule? r, idx? i with
     | some r, some i => some (.insert r i (o == "1"))
+    | _, _ => none
+  | ["inst", l, i, o] => match rules? l, idx? i with
+    | some l, some i => some (.insertText l i (o == "1"))
     | _, _ => none
   | ["insn", n, i, o] => match decCps n, idx? i with
     | some n, some i => some (.insertCharsetNamed n i (o == "1"))
